@@ -359,6 +359,12 @@ let run (lineno : int) (lbc : str -> n list) ofit (args : string array) (impl : 
                           else say "C10" "FAIL" ("well-formed text: expected " ^ dec_of_n (sum_cw v))
               | None -> say "C10" "ok" "not-wf")
     | "ff" | "of" -> check_frag_op (f 0) f impl
+    | "ffx" | "ofx" ->
+        (* arbitrary doubles: the partition shape must hold whenever lines are returned *)
+        if impl = "ERR" then say "C06" "skip" "overflow error"
+        else (match partition_ok (List.length (dlist (f 1))) (dgroups impl) with
+              | None -> say "C06" "ok" "f64"
+              | Some why -> say "C06" "FAIL" why)
     | "fwa" ->
         let line = ds (f 1) and ws = dwords impl in
         (match lossless_check line ws with
